@@ -69,7 +69,11 @@ def register_to_index(rname: str) -> int:
     if rname in NAMED_REGISTERS:
         return NAMED_REGISTERS[rname]
     elif rname.startswith("r"):
-        v = int(rname[1:])
+        try:
+            v = int(rname[1:])
+        except ValueError:
+            # Not a number, or too many digits for Python to convert.
+            v = -1
         if 0 <= v < 16:
             return v
     raise HERAError("{} is not a valid register".format(original))
